@@ -154,18 +154,22 @@ func (bc *BuildCache) Store(c Cacheable, importPath string, buildTime time.Time)
 		return false
 	}
 	defer f.Close()
+	failpoint("store:created")
 	if err := bc.serialize(c, buildTime, f); err != nil {
 		log.Warningf("Failed to write build cache package %q: %v", importPath, err)
 		// Make sure we don't leave a half-written package behind.
 		os.Remove(f.Name())
 		return false
 	}
+	failpoint("store:written")
 	f.Close()
+	failpoint("store:closed")
 	// Rename fully written file into its permanent name.
 	if err := os.Rename(f.Name(), path); err != nil {
 		log.Warningf("Failed to rename build cache package %q to %q: %v", importPath, path, err)
 		return false
 	}
+	failpoint("store:renamed")
 	dur := time.Since(start).Round(time.Millisecond)
 	log.Infof("Successfully stored build package %q as %q (%v).", importPath, path, dur)
 	return true
